@@ -14,8 +14,8 @@
 #endif
 
 static const char *const CNT[] = { "schedules", "scheduling_points", "preemption_bound_0", "preemption_bound_1", "preemption_bound_2", "pairs", "triples", "self_pairs", "instrumented_accesses", "foreign_or_global_accesses", "shared_written_locations",
-    "sequences", "calls", "tsan_rounds", "capped_harnesses", "distinct_bodies", NULL };
-enum { K_SCHED, K_POINTS, K_B0, K_B1, K_B2, K_PAIRS, K_TRIPLES, K_SELF, K_ACC, K_FOREIGN, K_SHW, K_SEQ, K_CALLS, K_TSAN, K_CAP, K_BODIES };
+    "sequences", "calls", "tsan_rounds", "capped_harnesses", "distinct_bodies", "written_shared_granules_max", NULL };
+enum { K_SCHED, K_POINTS, K_B0, K_B1, K_B2, K_PAIRS, K_TRIPLES, K_SELF, K_ACC, K_FOREIGN, K_SHW, K_SEQ, K_CALLS, K_TSAN, K_CAP, K_BODIES, K_WSET };
 static const char *const RAT[] = { NULL };
 
 /* ------------------------------------------------------------------ bodies */
@@ -153,7 +153,8 @@ static int execute(int nt, const int *bodies, const unsigned char *prefix, int p
     for (int t = 0; t < nt; t++) outs[t] = ta[t].out;
     return 0;
 }
-typedef struct { long schedules, points; int capped; } xstats;
+typedef struct { long schedules, points; int capped; double t0, budget; } xstats;
+static double now_s(void) { struct timespec ts; clock_gettime(CLOCK_MONOTONIC, &ts); return ts.tv_sec + 1e-9 * ts.tv_nsec; }
 static int explore(int nt, const int *bodies, const uint64_t *solo, int bound, unsigned char *prefix, int plen, int pre_cost, xstats *X, long cap, vres *r)
 {
     uint64_t outs[MON_MAXT];
@@ -165,7 +166,7 @@ static int explore(int nt, const int *bodies, const uint64_t *solo, int bound, u
     if (mon.conflict) return wk_fail(r, "data-race", "threads running bodies %d,%d%s: location %p (%s) is accessed by two threads with at least one write (thread %d, %s) under schedule prefix [%s]",
                                      bodies[0], bodies[1], nt > 2 ? ",.." : "", (void *)mon.conflict_addr, mon.conflict_kind == 1 ? "writable global/static" : "block of another thread", mon.conflict_tid, mon.conflict_write ? "write" : "read", sch);
     for (int t = 0; t < nt; t++) if (outs[t] != solo[bodies[t]]) return wk_fail(r, "output-differs-from-solo", "thread %d (body %d) produced output that differs bit-wise from the same call executed alone, under schedule prefix [%s]", t, bodies[t], sch);
-    if (mon.overflow) X->capped = 1;
+    if (mon.overflow || mon.sh_overflow) X->capped = 1;
     /* copy this execution's decisions, then branch */
     long np = mon.npoints; if (np > MON_MAXP) np = MON_MAXP;
     static unsigned char en_s[8][MON_MAXP], ch_s[8][MON_MAXP], re_s[8][MON_MAXP]; static int depth = 0;
@@ -178,7 +179,7 @@ static int explore(int nt, const int *bodies, const uint64_t *solo, int bound, u
         for (int alt = 1; alt < en[i]; alt++) {
             int c2 = cost + (re[i] ? 1 : 0);       /* switching away from a runnable thread is a preemption */
             if (c2 > bound) continue;
-            if (X->schedules >= cap) { X->capped = 1; return 0; }
+            if (X->schedules >= cap || now_s() - X->t0 > X->budget) { X->capped = 1; return 0; }
             unsigned char *np2 = malloc(i + 1); memcpy(np2, ch, i); np2[i] = (unsigned char)alt;
             depth++; int bad = explore(nt, bodies, solo, bound, np2, (int)i + 1, c2, X, cap, r); depth--;
             free(np2);
@@ -200,9 +201,13 @@ static void run_sched(const vcase *c, vres *r)
     for (int t = 0; t < 4; t++) vf_T(t);
     /* solo outputs: each body alone under the monitor (one thread) */
     uint64_t solo[NBODY]; memset(solo, 0, sizeof solo);
+    mon_wset_reset();
     for (int t = 0; t < nt; t++) { int b = bodies[t]; if (!solo[b]) { uint64_t o[1]; execute(1, &b, NULL, 0, o); solo[b] = o[0]; if (mon.conflict) { wk_fail(r, "harness", "conflict in a solo run"); return; } } }
-    xstats X = { 0, 0, 0 };
-    int bad = explore(nt, bodies, solo, bound, NULL, 0, 0, &X, c->lwork > 0 ? c->lwork : 200000, r);
+    /* the exploration is repeated while the set of written shared granules grows (reads of a granule become scheduling points once somebody writes it) */
+    xstats X = { 0, 0, 0, now_s(), c->aux3 > 0 ? (double)c->aux3 : 70.0 }; int bad = 0, rounds = 0;   /* time budget: a harness that cannot finish is reported as capped, never as a hang */
+    do { mon_wset_grew = 0; X.schedules = X.points = 0; X.capped = 0; bad = explore(nt, bodies, solo, bound, NULL, 0, 0, &X, c->lwork > 0 ? c->lwork : 200000, r); rounds++; } while (!bad && mon_wset_grew && rounds < 6);
+    if (!bad && mon_wset_grew) X.capped = 1;
+    if (mon_wset_size > wk->counters[K_WSET]) wk->counters[K_WSET] = mon_wset_size;
     WK_ADD(K_SCHED, X.schedules); WK_ADD(K_POINTS, X.points); WK_COUNT(bound == 0 ? K_B0 : bound == 1 ? K_B1 : K_B2); WK_COUNT(nt == 2 ? K_PAIRS : K_TRIPLES); if (nt == 2 && bodies[0] == bodies[1]) WK_COUNT(K_SELF);
     if (X.capped) WK_COUNT(K_CAP);
     r->nontrivial = X.schedules > 1; r->outcome = (uint64_t)X.schedules;
@@ -217,9 +222,9 @@ static void s_pair(const int *d, vcase *c) { int k = d[0], a = 0, b = 0; for (a 
 static void s_triple(const int *d, vcase *c) { c->aux = 3; c->k = TRIPLES[d[0]][0] + NBODY * TRIPLES[d[0]][1] + NBODY * NBODY * TRIPLES[d[0]][2]; c->aux2 = d[1]; c->lwork = 60000; }
 static void s_self2(const int *d, vcase *c) { c->aux = 2; c->k = d[0] + NBODY * d[0]; c->aux2 = 2; c->lwork = 60000; }
 static const family FSQ[] = { { "all 45 unordered pairs of 9 bodies (self pairs included) x preemption bound {0,1}", 2, { 45, 2 }, s_pair }, { "6 triples x preemption bound {0,1}", 2, { 6, 2 }, s_triple }, { "9 self pairs at preemption bound 2", 1, { 9 }, s_self2 } };
-static const family FST[] = { { "all 45 unordered pairs x preemption bound {0,1,2}", 2, { 45, 3 }, s_pair }, { "6 triples x preemption bound {0,1}", 2, { 6, 2 }, s_triple } };
+static const family FST[] = { { "all 45 unordered pairs x preemption bound {0,1,2}", 2, { 45, 3 }, s_pair }, { "6 triples x preemption bound {0,1,2}", 2, { 6, 3 }, s_triple } };
 static long sz_sched(int tier) { return tier ? fam_total(FST, 2) : fam_total(FSQ, 3); }
-static void dec_sched(int tier, long idx, vcase *c) { if (tier) { fam_decode(FST, 2, idx, c); c->lwork = 400000; } else fam_decode(FSQ, 3, idx, c); }
+static void dec_sched(int tier, long idx, vcase *c) { if (tier) { fam_decode(FST, 2, idx, c); c->lwork = 4000000; c->aux3 = 1800; } else { fam_decode(FSQ, 3, idx, c); c->aux3 = 70; } }
 static void desc_sched(int tier, char *b, size_t cap) { if (tier) fam_describe(FST, 2, b, cap); else fam_describe(FSQ, 3, b, cap); }
 
 /* ================================================================= C09tsan */
